@@ -43,8 +43,9 @@ def runOp (w : W Unit) (src : Source) (rest : List String) : W Unit × String :=
 
 /-- engine that records what `do_run` hands to each simulation: the call-local fields and, read from the text, the user
     numbers of its SELECTED_OUTPUT and USER_PUNCH blocks -/
-def tracer : Engine (List (CallLocal × List (Option Nat) × List (Option Nat))) where
-  simStep cl e t := ⟨e ++ [(cl, keywordNumbers Gen.Keywords.keySelectedOutput t, keywordNumbers Gen.Keywords.keyUserPunch t)], [], 0, 0, 0⟩
+def tracer : Engine (List (CallLocal × List (Option Nat) × List (Option Nat) × Bool)) where
+  simStep cl e t := ⟨e ++ [(cl, keywordNumbers Gen.Keywords.keySelectedOutput t, keywordNumbers Gen.Keywords.keyUserPunch t,
+    t.any fun l => l.ltype == .keyword Gen.Keywords.keyTransport)], [], 0, 0, 0⟩
   components _ := []
   dump _ := ""
   fresh := []
@@ -53,12 +54,13 @@ def tracer : Engine (List (CallLocal × List (Option Nat) × List (Option Nat)))
 def showNums (ns : List (Option Nat)) : String :=
   ",".intercalate (ns.map fun n => match n with | some k => toString k | none => "?")
 
-/-- `plan <hex>`: one error-free call on a loaded object; "K <simulation counter after the call> | sim=<i> force=<0|1> so=… up=… | …" -/
+/-- `plan <hex>`: one error-free call on a loaded object; "K <simulation counter after the call> | sim=<i> force=<0|1> so=… up=… tr=<TRANSPORT block read> | …"
+    (rows punched by TRANSPORT carry the engine's own transport counter `simul_tr` in the `sim` column, not the call counter) -/
 def plan (text : Bytes) : String :=
-  let w : W (List (CallLocal × List (Option Nat) × List (Option Nat))) := { dbLoaded := true, engine := [] }
+  let w : W (List (CallLocal × List (Option Nat) × List (Option Nat) × Bool)) := { dbLoaded := true, engine := [] }
   let r := (w.run tracer (.str text)).1
-  s!"K {r.simulation}" ++ String.join (r.engine.map fun (cl, so, up) =>
-    s!" | sim={cl.simulation} force={b2s cl.forceHeadings} so={showNums so} up={showNums up}")
+  s!"K {r.simulation}" ++ String.join (r.engine.map fun (cl, so, up, tr) =>
+    s!" | sim={cl.simulation} force={b2s cl.forceHeadings} so={showNums so} up={showNums up} tr={b2s tr}")
 
 def feed (w : W Unit) (line : String) : W Unit × Option String :=
   match words line with
